@@ -219,7 +219,7 @@ func init() {
 	Register(&Engine{
 		ID:       "C08",
 		Anchors:  []string{"router.go:headResponse.Write", "router.go:headResponse.WriteHeader", "tree.go:Remove", "method.go:addMethods"},
-		Cases:    func(t string) int { return map[string]int{"quick": 400, "thorough": 40000}[t] },
+		Cases:    func(t string) int { return map[string]int{"quick": 1600, "thorough": 60000}[t] },
 		Run:      runC08,
 		Directed: c08Directed,
 		Rule: "3 of 4 cases: 60 generated handler write programs (0-8 steps over set/add/del header, WriteHeader(code), Write(n), n in 0..4096) run under GET and HEAD on the same handler object through a wire-faithful recorder, plus reserved-method registrations; every 4th case: a Handle/Remove/Clean history with HEAD/GET/OPTIONS probes on every pool pattern after each step; " +
